@@ -122,10 +122,14 @@ func ruleC05R2(r *Run) {
 	if n < 4 {
 		r.Undecided("request call sites", fmt.Sprintf("only %d of the four request calls found in package iscp", n))
 	}
-	// send's loop
+	// send's loop; one attempt may be split out into a function of its own that reports "again" through its result
 	sname := fnName(send)
+	att, _, site := p.attemptOf(send)
+	if att == nil {
+		att = send
+	}
 	var isCall *ssa.Call
-	allInstrs(send, func(ins ssa.Instruction) {
+	allInstrs(att, func(ins ssa.Instruction) {
 		if c, ok := ins.(*ssa.Call); ok && isCallNamed(c, "/errors.Is") {
 			if hasLeaf(p.Leaves(c.Call.Args[1], provOpts{}), "global:/errors.ErrConnectionClosed") {
 				isCall = c
@@ -145,13 +149,22 @@ func ruleC05R2(r *Run) {
 			}
 		}
 	}
-	waits := findCalls(send, false, "/iscp.connStatus.WaitUntilOrClosed", "/iscp.connStatus.WaitUntil")
+	waits := findCalls(att, false, "/iscp.connStatus.WaitUntilOrClosed", "/iscp.connStatus.WaitUntil")
 	okLoop := false
 	if ifs != nil && len(waits) > 0 {
 		// errors.Is true edge (cond may be negated by the builder: find the successor from which the wait is reachable)
 		for _, s := range ifs.Block().Succs {
-			if reachesWithoutBlock(s, waits[0].Block()) && inLoop(waits[0]) {
-				okLoop = true
+			if site == nil {
+				if reachesWithoutBlock(s, waits[0].Block()) && inLoop(waits[0]) {
+					okLoop = true
+				}
+				continue
+			}
+			// the attempt returns; with what that return tells the caller, the caller comes back to the attempt
+			for _, ret := range returnsOf(att) {
+				if edgeReaches(ifs.Block(), s, ret) && pathsFrom(site, resultsKnownAt(site, ret), nil, site) != "unreached" {
+					okLoop = true
+				}
 			}
 		}
 	}
@@ -169,13 +182,22 @@ func ruleC05R2(r *Run) {
 	}
 	// the wrapper gives up with ErrConnectionClosed only when the status is Closed
 	closedC, _ := p.enumConst("/iscp", "connStatusClosed")
-	allInstrs(send, func(ins ssa.Instruction) {
+	allInstrs(att, func(ins ssa.Instruction) {
 		ret, isRet := ins.(*ssa.Return)
-		if !isRet || sentinelName(retResults(ret)[0]) != "ErrConnectionClosed" {
+		if !isRet {
+			return
+		}
+		sentinel := false
+		for _, v := range retValuesDeep(ret) {
+			if _, isErr := v.Type().Underlying().(*types.Interface); isErr && sentinelName(v) == "ErrConnectionClosed" {
+				sentinel = true
+			}
+		}
+		if !sentinel {
 			return
 		}
 		okGuard := false
-		allInstrs(send, func(x ssa.Instruction) {
+		allInstrs(att, func(x ssa.Instruction) {
 			ifs, isIf := x.(*ssa.If)
 			if !isIf {
 				return
@@ -404,28 +426,52 @@ func ruleC05R6(r *Run) {
 		// errgroup members: the closures of run, and named methods a closure merely forwards to
 		members := append([]*ssa.Function{}, run.AnonFuncs...)
 		for _, cl := range run.AnonFuncs {
+			// a closure that merely forwards to a named method (return x.m(ctx)): the method is the member
+			var only *ssa.Call
+			calls, forwards := 0, false
 			allInstrs(cl, func(ins ssa.Instruction) {
-				if c, ok := ins.(*ssa.Call); ok {
-					if cf := c.Call.StaticCallee(); cf != nil && p.Analysed(cf) && recvTypeName(cf) == typ && len(p.staticCallSites(cf)) == 1 {
-						members = append(members, cf)
-					}
-				}
-			})
-		}
-		for _, cl := range members {
-			// the watcher: calls IsWithoutLock(connStatusReconnecting) and a Cond.Wait
-			watches := false
-			allInstrs(cl, func(ins ssa.Instruction) {
-				if c, ok := ins.(*ssa.Call); ok {
-					if cf := c.Call.StaticCallee(); cf != nil && recvTypeName(cf) == "connStatus" {
-						for _, a := range c.Call.Args {
-							if v, isC := constInt(a); isC && v == reconnecting {
-								watches = true
-							}
+				switch x := ins.(type) {
+				case *ssa.Call:
+					calls++
+					only = x
+				case *ssa.Return:
+					for _, rv := range retResults(x) {
+						if only != nil && (rv == ssa.Value(only) || canonVal(rv) == ssa.Value(only)) {
+							forwards = true
 						}
 					}
 				}
 			})
+			if calls == 1 && forwards {
+				if cf := only.Call.StaticCallee(); cf != nil && p.Analysed(cf) && recvTypeName(cf) == typ {
+					members = append(members, cf)
+				}
+			}
+		}
+		for _, cl := range members {
+			// the watcher: calls IsWithoutLock(connStatusReconnecting) and a Cond.Wait
+			watches := false
+			var scanW func(f *ssa.Function, d int)
+			scanW = func(f *ssa.Function, d int) {
+				if f == nil || f.Blocks == nil || d > 2 {
+					return
+				}
+				allInstrs(f, func(ins ssa.Instruction) {
+					if c, ok := ins.(*ssa.Call); ok {
+						cf := c.Call.StaticCallee()
+						if cf != nil && recvTypeName(cf) == "connStatus" {
+							for _, a := range c.Call.Args {
+								if v, isC := constInt(a); isC && v == reconnecting {
+									watches = true
+								}
+							}
+						} else if cf != nil && p.Analysed(cf) && recvTypeName(cf) == typ {
+							scanW(cf, d+1) // the wait loop or its predicate moved into a method of the stream
+						}
+					}
+				})
+			}
+			scanW(cl, 0)
 			if !watches {
 				continue
 			}
@@ -620,14 +666,11 @@ func ruleC05R10(r *Run) {
 		return
 	}
 	name := fnName(fn)
-	var fcall *ssa.Call
-	allInstrs(fn, func(ins ssa.Instruction) {
-		if c, ok := ins.(*ssa.Call); ok && !c.Call.IsInvoke() && c.Call.StaticCallee() == nil {
-			if _, isParam := c.Call.Value.(*ssa.Parameter); isParam {
-				fcall = c
-			}
-		}
-	})
+	// the attempt may be a function of its own that send calls in its loop
+	att, fcall, _ := p.attemptOf(fn)
+	if att != nil {
+		fn = att
+	}
 	if fcall == nil {
 		r.Undecided(name+" request call", "the call of the function parameter was not found")
 		return
@@ -885,7 +928,34 @@ func ruleC05R13(r *Run) {
 						continue
 					}
 					cal := cc.Call.StaticCallee()
-					if cal == nil || cal.Signature.Recv() == nil || namedOf(cal.Signature.Recv().Type()) != holder {
+					if cal == nil || cal.Signature.Recv() == nil {
+						continue
+					}
+					if namedOf(cal.Signature.Recv().Type()) != holder {
+						// the loop predicate moved into a helper of the stream (attachedWithoutLock()): look inside
+						if p.Analysed(cal) && cal.Blocks != nil && fnPkgPath(cal) == modPath+"/iscp" {
+							allInstrs(cal, func(y ssa.Instruction) {
+								c2, isC2 := y.(*ssa.Call)
+								if !isC2 {
+									if u, isU := y.(*ssa.UnOp); isU && u.Op == token.MUL && fieldKeyOfAddr(u.X) == gen {
+										genRead = true
+									}
+									return
+								}
+								cal2 := c2.Call.StaticCallee()
+								if cal2 == nil || cal2.Signature.Recv() == nil || namedOf(cal2.Signature.Recv().Type()) != holder {
+									return
+								}
+								for _, a := range c2.Call.Args[1:] {
+									if v, isK := constInt(a); isK && v == reconnecting {
+										level = true
+									}
+								}
+								if readsGen(cal2, 0) {
+									genRead = true
+								}
+							})
+						}
 						continue
 					}
 					for _, a := range cc.Call.Args[1:] {
